@@ -29,6 +29,18 @@ CHECKS = {
         note='Trusted: Coq kernel; extraction (ExtrOcamlBasic only) + OCaml; the differential harness; struct native order = little endian; '
              'negative mpints and TZ behaviour are tied by correspondence / sweep only, not by a theorem.',
         technique='Coq proof over a hand-written model of the primitives; extracted-model vs implementation differential run; TZ sweep'),
+    'C10': dict(
+        category='proof',
+        text='Coq theorems, generic over any code table and instantiated at every factory / vector regenerated from the live library: '
+             'for the whole code space of each width a known code decodes to the member carrying it and re-encodes to the same bytes, '
+             'any other code is rejected as InvalidValue or kept bit-for-bit by the GREASE/unknown fallback, and the items of any accepted '
+             'enum vector re-compose to exactly the consumed bytes (nothing redirected, dropped or added). NoDup / range / no-alias side '
+             'conditions are decided by vm_compute on the generated tables (all factory enums and every IntEnum, over __members__). Tie: '
+             'extracted model vs implementation on members, GREASE, neighbours, random codes (quick) or the full 2^8/2^16 spaces (thorough).',
+        design_ref='DESIGN.md section 6, C10',
+        note='Trusted: Coq kernel; gen_tables.py; extraction + OCaml; differential harness. String-coded enums are covered by the NoDup '
+             'side condition and the ALPN/NPN exact-match model only; their text parsers belong to C07/C16/C18.',
+        technique='Coq proof (generic lemmas + vm_compute side conditions on generated tables); extracted-model vs implementation differential run'),
 }
 
 NOT_YET = {}
